@@ -8,6 +8,7 @@ import "golang.org/x/net/internal/zzverif/vx"
 
 func c11cliRunParts(c *vx.Ctx) {
 	c.Rule("EV, client part: Transport with per-stream receive window 8 or 600 (stream boundary) or connection receive buffer 65535 (window 131070) pre-filled by seven 16384-byte frames (connection boundary); every event sequence of depth 1..D after the seed over {REQ (<=2 GETs), response HEADERS, unpadded DATA(stream, len = w-1 | w | w+1 relative to the monitor's current min(stream, connection) window w, and len 1, 0), in the */padded parts also PADDED DATA whose whole frame payload is w-1 | w | w+1 with pad-length byte + padding = 1 | 3 | 256 bytes of it and fixed 1-byte-payload frames with pad length 1 | 255 (same alphabet as the server part), application Read(n), Body.Close}; the monitor debits the whole frame payload; an out-of-window frame ends the sequence; oracle: DATA inside both advertised windows is never answered with FLOW_CONTROL_ERROR and is delivered to Response.Body in order (final drain); DATA beyond a window is answered with GOAWAY or RST_STREAM carrying FLOW_CONTROL_ERROR and Reads never return more than the in-window prefix")
+	c.Rule("EV, client part, */prefilled-other-stream/* parts (connection window on streams that take no DATA): connection window 131070 pre-filled to 16382 by seven unread 16384-byte frames on stream 3 while stream 1 has no response yet (part cancel) or had its response body closed, i.e. was reset and forgotten by the Transport (part body-closed); every event sequence of depth 1..D after the seed over {response HEADERS, fixed DATA of 4 bytes (also on closed streams) | 1 | 0 | 0 with END_STREAM, DR as above on open streams, DRC(stream, len = w-1 | w | w+1 relative to the monitor's current CONNECTION window w alone) on a stream the client opened that takes no DATA (any more): cancelled or body closed or reset by the client for a protocol error (in-flight DATA after the client's RST_STREAM, legal by RFC 9113 5.1), before the response HEADERS, after END_STREAM, after the server's own RST_STREAM, application Read(n), Body.Close, request cancel, server RST_STREAM}; oracle: a DRC frame beyond the connection window on a stream the client has reset is answered with FLOW_CONTROL_ERROR (GOAWAY, read-loop error, or RST_STREAM of that stream); on a stream where the frame also violates the stream state machine (before HEADERS, after END_STREAM, after the server's RST_STREAM) any connection error is accepted, a connection that carries on is not; a DRC frame inside the connection window and the stream's last advertised window is never answered with FLOW_CONTROL_ERROR (the monitor credits the WINDOW_UPDATEs that return the discarded bytes, so later frames are sized against the refunded window)")
 	small := c09cliCfg{StrWin: 8}
 	connB := c09cliCfg{ConnWin: 65535}
 	pre := "D(1,16384,0,0)"
@@ -28,12 +29,24 @@ func c11cliRunParts(c *vx.Ctx) {
 	pSmall := c11cliAlphabet([]int64{0}, resp, dPadS, []int64{1, 100}, []string{"C"}, rel, ovhS)
 	pMid := c11cliAlphabet([]int64{0}, resp, dPadL, []int64{1, 1000}, []string{"C"}, rel, ovhL)
 	pConn := c11cliAlphabet(nil, nil, dPadL, []int64{1, 100, 20000}, []string{"C"}, rel, ovhL)
+	// Connection window on streams that take no DATA (any more): the connection
+	// window is pre-filled by unread data on stream 3; stream 1 is cancelled /
+	// its body closed (by an event or in the seed), or has no response yet, and
+	// then receives DATA sized against the connection window alone (DRC).
+	seedOther := []string{"REQ(0)", "REQ(0)", "RESP(3,-1,0)", "D(3,16384,0,0)", "D(3,16384,0,0)", "D(3,16384,0,0)", "D(3,16384,0,0)", "D(3,16384,0,0)", "D(3,16384,0,0)", "D(3,16384,0,0)"}
+	seedClosed := []string{"REQ(0)", "REQ(0)", "RESP(1,-1,0)", "RESP(3,-1,0)", "D(3,16384,0,0)", "D(3,16384,0,0)", "D(3,16384,0,0)", "D(3,16384,0,0)", "D(3,16384,0,0)", "D(3,16384,0,0)", "D(3,16384,0,0)", "C(1)"}
+	// D(s,4,0,0) is the fixed small frame the generator also sends on closed
+	// streams; D(s,0,0,1) ends the response (empty DATA + END_STREAM).
+	dClosed := [][3]int64{{4, 0, 0}, {1, 0, 0}, {0, 0, 0}, {0, 0, 1}}
+	aClosed := c11cliClosedAlphabet(resp, dClosed, []int64{1, 100, 20000}, []string{"C", "CANCEL", "RST"}, rel)
 	var parts []c10cliPart
 	if c.Quick() {
 		parts = []c10cliPart{
 			{"cli/win8/one-response", small, seedStream, aSmall, 5},
 			{"cli/conn131070/prefilled", connB, seedConn, aConn, 4},
 			{"cli/conn131070/prefilled-two-streams", connB, seedConn2, aConn, 3},
+			{"cli/conn131070/prefilled-other-stream/cancel", connB, seedOther, aClosed, 3},
+			{"cli/conn131070/prefilled-other-stream/body-closed", connB, seedClosed, aClosed, 3},
 			{"cli/win8/one-response/padded", small, seedStream, pSmall, 4},
 			{"cli/win600/one-response/padded", mid, seedStream, pMid, 3},
 			{"cli/conn131070/prefilled/padded", connB, seedConn, pConn, 3},
@@ -45,6 +58,8 @@ func c11cliRunParts(c *vx.Ctx) {
 			{"cli/win8/one-response", small, seedStream, aSmall, 6},
 			{"cli/conn131070/prefilled", connB, seedConn, aConn, 5},
 			{"cli/conn131070/prefilled-two-streams", connB, seedConn2, aConn, 4},
+			{"cli/conn131070/prefilled-other-stream/cancel", connB, seedOther, aClosed, 4},
+			{"cli/conn131070/prefilled-other-stream/body-closed", connB, seedClosed, aClosed, 4},
 			{"cli/win8/one-response/padded", small, seedStream, pSmall, 5},
 			{"cli/win600/one-response/padded", mid, seedStream, pMid, 4},
 			{"cli/conn131070/prefilled/padded", connB, seedConn, pConn, 4},
@@ -66,6 +81,21 @@ func c11cliAlphabet(reqKinds []int64, resp [][2]int64, data [][3]int64, reads []
 					a = append(a, c08srvEv{K: "DRP", A: []int64{ev.arg(0), r, o, 0}})
 				}
 			}
+		}
+	}
+	return append(a, c10cliAlphabet(nil, nil, nil, reads, extras, nil)...)
+}
+
+// c11cliClosedAlphabet is c10cliAlphabet plus, per stream, the frames
+// DRC(s, rel): unpadded DATA of length w+rel, w = the monitor's current
+// CONNECTION window alone, sent on a stream that takes no DATA (any more) —
+// cancelled / body closed (reset and forgotten by the Transport), no response
+// HEADERS yet, ended or reset by the server (see c10cDRC) — plus request cancel.
+func c11cliClosedAlphabet(resp [][2]int64, data [][3]int64, reads []int64, extras []string, rel []int64) []c08srvEv {
+	a := c10cliAlphabet(nil, resp, data, nil, nil, rel)
+	for _, id := range []int64{1, 3} {
+		for _, r := range rel {
+			a = append(a, c08srvEv{K: "DRC", A: []int64{id, r}})
 		}
 	}
 	return append(a, c10cliAlphabet(nil, nil, nil, reads, extras, nil)...)
